@@ -1,0 +1,34 @@
+// This Source Code Form is subject to the terms of the Mozilla Public
+// License, v. 2.0. If a copy of the MPL was not distributed with this
+// file, You can obtain one at http://mozilla.org/MPL/2.0/.
+
+//go:build verif
+
+package inmem
+
+// Contracts for the deductive verifier in /verif (govc). Comment-only file: it
+// adds no code. Lines starting with //@ are parsed by govc; see /verif/DESIGN.md.
+
+//@ fn cookieByte(i int) byte
+//@
+//@ func bookmarkCookie
+//@   trusted
+//@   pure
+//@   ensures len(result) == 8 && result != nil
+//@   ensures forall i int :: 0 <= i && i < 8 ==> result[i] == cookieByte(i)
+//@
+//@ pred isBookmarkOf(b state.Bookmark, p int64) := len(b) == 16 &&
+//@   (forall i int :: 0 <= i && i < 8 ==> b[i] == cookieByte(i)) &&
+//@   b[8] == beByte(u64(p),0) && b[9] == beByte(u64(p),1) && b[10] == beByte(u64(p),2) && b[11] == beByte(u64(p),3) &&
+//@   b[12] == beByte(u64(p),4) && b[13] == beByte(u64(p),5) && b[14] == beByte(u64(p),6) && b[15] == beByte(u64(p),7)
+//@
+//@ func encodeBookmark
+//@   props C12
+//@   ensures [encodes] isBookmarkOf(result, pos)
+//@
+//@ func decodeBookmark
+//@   props C12
+//@   ensures [malformed-rejected] len(bookmark) != 16 ==> err != nil
+//@   ensures [foreign-rejected] (exists i int :: 0 <= i && i < 8 && i < len(bookmark) && bookmark[i] != cookieByte(i)) ==> err != nil
+//@   ensures [inverse] forall p int64 :: -9223372036854775808 <= p && p <= 9223372036854775807 && isBookmarkOf(bookmark, p) ==> err == nil && result0 == p
+//@   ensures [accepted-wellformed] err == nil ==> isBookmarkOf(bookmark, result0)
